@@ -253,10 +253,10 @@ def r14_4b(ctx, which):
             ok = sets_flag == [("assign self.num_too_big", ("true",))]
             detail = "overflowing digit path sets num_too_big := true"
             if ok:
-                # before the add
+                # after the multiplication, before the (wrapping) addition of the digit
                 i_flag = names.index("assign self.num_too_big")
-                adds = [i for i, a in enumerate(names) if a.startswith("self.num.wrapping_add")]
-                ok = bool(adds) and i_flag < adds[0]
+                writes = [i for i, a in enumerate(names) if a == "assign self.num"]
+                ok = len(writes) == 2 and writes[0] < i_flag < writes[1]
         else:
             ok = not sets_flag
             detail = "non-overflowing digit path leaves num_too_big untouched (sticky)"
